@@ -53,7 +53,8 @@ def own_parseargs(body):
     for it in body:
         if it["k"] == "parseargs":
             return True
-        if it["k"] == "block" and own_parseargs(it["body"]):
+        # if/foreach/while blocks and cpp_class blocks are not function or macro definitions: transparent
+        if it["k"] in ("block", "class") and own_parseargs(it["body"]):
             return True
     return False
 
@@ -190,12 +191,16 @@ def _walk(items, ms, out, class_stack):
 
 def _impl(it, ms, out, class_stack, claimed):
     """The definition implementing a member/test declaration: no entry of its own when claimed.
-    When the declaration is hidden the definition is an ordinary undocumented definition; the
-    properties leave that case open, so it is marked 'optional' (never asserted either way)."""
+    Two cases are left open by the properties and marked 'optional' (never asserted either way): a hidden
+    declaration turns the definition into an ordinary undocumented one; a definition carrying a doccomment
+    of its own (CMinx documents it as a function besides claiming it)."""
     impl = it["impl"]
-    if not claimed and ms.flags[impl["cmd"]]:
-        out.append(Entry(dir="function", kind="unclaimed-impl", optional=True, name=None, adm=[], doc=[], fields=[]))
-        # (name of the definition: see render._render_impl; not needed because optional entries are never asserted)
+    name = "${" + re.sub(r"[^A-Za-z0-9_]", "_", it["name"].strip('"${}[]=')) + "}"
+    if impl.get("doc") is not None:
+        out.append(Entry(dir="function", kind="documented-impl", optional=True, name=name, adm=[], doc=[], fields=[],
+                         marker=impl["doc"].get("marker")))
+    elif not claimed and ms.flags[impl["cmd"]]:
+        out.append(Entry(dir="function", kind="unclaimed-impl", optional=True, name=name, adm=[], doc=[], fields=[]))
     _walk(impl["body"], ms, out, class_stack)
 
 
